@@ -44,10 +44,11 @@ Theorem C19_collect_order_independent : forall V (r r' : list (str * V)),
   Permutation r r' -> NoDup (map fst r) -> forall m, fold_ins r m = fold_ins r' m.
 Proof. exact fold_ins_perm. Qed.
 
-(** A parallel layer load succeeds iff every task does (same for the sequential one). *)
+(** A parallel layer load succeeds iff the file-name check passes and every task succeeds (same
+    for the sequential one). *)
 Theorem C19_ok_iff_all_ok : forall sched s ts,
-  ((exists m, snd (par_layer sched s ts) = inr m) <-> forallb task_ok ts = true) /\
-  ((exists m, snd (seq_layer s ts) = inr m) <-> forallb task_ok ts = true).
+  ((exists m, snd (par_layer sched s ts) = inr m) <-> layer_ok ts = true) /\
+  ((exists m, snd (seq_layer s ts) = inr m) <-> layer_ok ts = true).
 Proof. intros. split; [apply par_layer_ok_iff | apply seq_layer_ok_iff]. Qed.
 
 (** One layer: for every schedule the parallel load equals the specification (key ↦ the glyph its
@@ -139,9 +140,9 @@ Proof. vm_compute. repeat split. Qed.
     allocations ([a]'s glyph is named by allocation 1 while the interner and the composites hold
     allocation 5), one observable result. *)
 Definition ex_tasks : list task :=
-  [ mkTask (nm 97 1) [nm 97 2] (TOk 10);
-    mkTask (nm 98 3) [nm 98 4; nm 97 5; nm 97 6] (TOk 20);
-    mkTask (nm 99 7) [nm 120 8; nm 97 9; nm 98 10] (TOk 30) ].
+  [ mkTask (nm 97 1) (Some [1]) [nm 97 2] (TOk 10);
+    mkTask (nm 98 3) (Some [2]) [nm 98 4; nm 97 5; nm 97 6] (TOk 20);
+    mkTask (nm 99 7) (Some [3]) [nm 120 8; nm 97 9; nm 98 10] (TOk 30) ].
 Example C19_three_threads :
   let rc := [1;1;1;1;1;0;1;1;1;1;0;0;0;0]%nat in
   let rv := [2;2;2;2;2;2;2;2;2;2;2;2;2;1;1;1;1;1;1;1;1;1;1;1;1;1;0;0;0;0;0;0;0]%nat in
@@ -161,7 +162,7 @@ Qed.
 
 (** a failing glif: Ok/Err agree, the reported error may differ *)
 Example C19_errors_may_differ :
-  let ts := [ mkTask (nm 97 1) [] (TErr 1); mkTask (nm 98 2) [] (TErr 2) ] in
+  let ts := [ mkTask (nm 97 1) (Some [1]) [] (TErr 1); mkTask (nm 98 2) (Some [2]) [] (TErr 2) ] in
   snd (par_layer [1;1;1;1;1]%nat [] ts) = inl 2 /\ snd (seq_layer [] ts) = inl 1 /\
   erase_res (snd (par_layer [1;1;1;1;1]%nat [] ts)) = erase_res (snd (seq_layer [] ts)).
 Proof. vm_compute. repeat split. Qed.
@@ -173,21 +174,33 @@ Example C19_save_two_orders :
   par_save [] [] ws = seq_save [] ws /\ NoDup (map fst ws).
 Proof. vm_compute. repeat split; repeat constructor; cbn; intuition discriminate. Qed.
 
-(** * Known class: two entries of [contents] naming the same file.
-    The full statement (no hypothesis on the paths) is false in the model: the file ends up with
-    the bytes of whichever task wrote last. *)
-Definition C19_save_full : Prop :=
-  forall sched tree ws, ok_tree (par_save sched tree ws) = ok_tree (seq_save tree ws).
-Definition KnownClass_C19_dup_paths (ws : list stask) : Prop := ~ NoDup (map fst ws).
-Theorem C19_save_refuted_dup_paths : ~ C19_save_full.
+(** * The full save statement (formerly refuted for the class dup-glif-paths, repaired in norad
+    by afd801a: [load_impl] refuses a [contents] in which two names share a file).
+    Where the distinctness of the paths comes from:
+    - a LOADED layer: from load's own check, proved here ([C19_loaded_paths_distinct]);
+    - a layer built through the API: from the container invariant ([insert_glyph] picks a file
+      name that is not in [path_set]; properties C06/C07) — there it is the hypothesis
+      [NoDup (map fst ws)] of [C19_par_save_eq_seq].
+    Without any source of distinctness the write order would show: see the last example. *)
+Theorem C19_loaded_paths_distinct : forall sched s ts enc,
+  (exists m, snd (par_layer sched s ts) = inr m) -> NoDup (map fst (save_tasks enc ts)).
+Proof. exact loaded_layer_paths_distinct. Qed.
+Theorem C19_save_full : forall sched s ts enc sched' tree,
+  (exists m, snd (par_layer sched s ts) = inr m) ->
+  ok_tree (par_save sched' tree (save_tasks enc ts)) = ok_tree (seq_save tree (save_tasks enc ts)) /\
+  tree_equiv (ok_tree (par_save2 sched' tree (save_tasks enc ts))) (ok_tree (seq_save tree (save_tasks enc ts))).
 Proof.
-  intro H. specialize (H [1;0]%nat [] [ ([97], inr [1]); ([97], inr [2]) ]). vm_compute in H. discriminate.
+  intros sched s ts enc sched' tree H. pose proof (loaded_layer_paths_distinct sched s ts enc H) as ND.
+  split; [apply par_save_eq_seq | apply par_save2_equiv]; exact ND.
 Qed.
-Example C19_dup_paths_witness_in_class : KnownClass_C19_dup_paths [ ([97], inr [1]); ([97], inr [2]) ].
-Proof. intro H. inversion H as [|? ? Hn _]. apply Hn. left. reflexivity. Qed.
-Theorem C19_save_outside_class : forall sched tree ws,
-  ~ KnownClass_C19_dup_paths ws -> ok_tree (par_save sched tree ws) = ok_tree (seq_save tree ws).
-Proof.
-  intros sched tree ws H. apply par_save_eq_seq.
-  destruct (ListDec.NoDup_dec (list_eq_dec N.eq_dec) (map fst ws)) as [ND|ND]; [exact ND|contradiction].
-Qed.
+(** the former witness: two names, one file — refused by both builds, under every schedule *)
+Example C19_dup_file_refused :
+  let ts := [ mkTask (nm 97 1) (Some [7]) [nm 97 2] (TOk 1); mkTask (nm 98 3) (Some [7]) [nm 98 4] (TOk 2) ] in
+  (forall sched, snd (par_layer sched [] ts) = inl 2) /\ snd (seq_layer [] ts) = inl 2 /\ spec_layer ts = None /\
+  layer_ok ex_tasks = true.
+Proof. vm_compute. repeat split. Qed.
+(** why the hypothesis is needed: on one path the last writer wins *)
+Example C19_same_path_order_shows :
+  par_save [1;0]%nat [] [ ([97], inr [1]); ([97], inr [2]) ] = inr [([97],[1])] /\
+  seq_save [] [ ([97], inr [1]); ([97], inr [2]) ] = inr [([97],[2])].
+Proof. vm_compute. split; reflexivity. Qed.
